@@ -540,3 +540,10 @@ EQUIVALENT += [
      "        raise SyntaxError(\n            f'{self.filename}:{line}:{column}: {msg}'\n        )",
      'syntax errors reported with a builtin exception class'),
 ]
+
+MUTANTS += [
+    ('fixrev_assoc_membership', ['C05'], M,
+     """                if not any(field_asset is asset for asset in self.assets):""",
+     """                if False and not any(field_asset is asset for asset in self.assets):""",
+     'revert 35d0000'),
+]
